@@ -110,6 +110,8 @@ type upCall struct {
 	hasECS bool
 	subnet netip.Prefix
 	ecsErr string
+	// allECS is every ECS option of the query, in order.
+	allECS []string
 }
 
 type upstream struct {
@@ -292,6 +294,13 @@ func (u *upstream) ServeDNS(ctx context.Context, rw dnsserver.ResponseWriter, re
 		c.do = opt.Do()
 	}
 	c.subnet, _, c.hasECS, c.ecsErr = reqSubnet(req)
+	if opt := req.IsEdns0(); opt != nil {
+		for _, o := range opt.Option {
+			if e, ok := o.(*dns.EDNS0_SUBNET); ok {
+				c.allECS = append(c.allECS, fmt.Sprintf("%s/%d", e.Address, e.SourceNetmask))
+			}
+		}
+	}
 	u.calls = append(u.calls, c)
 
 	return rw.WriteMsg(ctx, req, answer(req))
@@ -644,6 +653,9 @@ func (st *mwStack) lastCall() upCall { return st.up.calls[len(st.up.calls)-1] }
 var clientPool = []string{"192.0.2.10", "192.0.2.20", "198.51.100.5", "203.0.113.9", "192.168.77.7", "2001:db8:a::1", "2001:db8:b::1", "198.18.5.5"}
 
 type ecsChoice struct {
+	// twice: the valid option is followed by a second one that carries the
+	// client's own address.
+	twice  bool
 	name   string
 	fam    uint16
 	addr   net.IP
@@ -680,6 +692,10 @@ func ecsChoices(client netip.Addr) (cs []ecsChoice) {
 	} else {
 		cs = append(cs, v6(client.String(), 128))
 	}
+	// A query with two ECS options, the second with the client's address.
+	two := cs[1]
+	two.twice, two.name = true, two.name+"+own-address"
+	cs = append(cs, two)
 
 	return cs
 }
@@ -845,6 +861,13 @@ func run(s *kernel.Sim, prop, cfg string) {
 				opt.Option = append(opt.Option, &dns.EDNS0_SUBNET{
 					Code: dns.EDNS0SUBNET, Family: ecs.fam, SourceNetmask: ecs.mask, Address: ecs.addr,
 				})
+				if ecs.twice {
+					own := &dns.EDNS0_SUBNET{Code: dns.EDNS0SUBNET, Family: 1, SourceNetmask: 32, Address: client.AsSlice()}
+					if client.Is6() {
+						own.Family, own.SourceNetmask = 2, 128
+					}
+					opt.Option = append(opt.Option, own)
+				}
 			}
 		}
 
@@ -1073,6 +1096,13 @@ func run(s *kernel.Sim, prop, cfg string) {
 func checkUpstreamSide(s *kernel.Sim, i int, c upCall, client netip.Addr, ecs *netip.Prefix, want netip.Prefix) {
 	if !c.hasECS {
 		s.Failf("C05/upstream-no-ecs", "upstream query carries no ECS option", "req %d", i)
+
+		return
+	}
+
+	if len(c.allECS) > 1 {
+		s.Failf("C05/upstream-second-option", "upstream query carries a second ECS option, as the client supplied it",
+			"req %d client %s: upstream got ECS options %v", i, client, c.allECS)
 
 		return
 	}
